@@ -66,6 +66,7 @@ var c19Patterns = map[string]string{
 	"not-a-map":                "notAMap",
 	"location-normalised":      "locationNormalised",
 	"known-finding":            "knownFinding",
+	"explicit-import":          "explicitImport",
 	"unclassified":             "unclassified",
 	"vanished":                 "vanished",
 }
@@ -196,6 +197,7 @@ func c19ScanRepo(repo string) ([]c19Site, error) {
 			sc.scanFile(pk, rel, pk.files[rel])
 		}
 	}
+	sc.scanGoImports()
 	sort.Slice(sc.sites, func(i, j int) bool { return sc.sites[i].Key < sc.sites[j].Key })
 	return sc.sites, nil
 }
